@@ -30,6 +30,11 @@ CHECKS = {
    text="The same harness is executed in two SSA programs built from /repo (tags verif and verif,purego) on the same symbolic inputs, sharing one term store and solver session; for each of the 33 two-variant codecs x {EncodeColumn after 0/3/8 arbitrary bytes, WriteColumn+Flush, DecodeColumn of arbitrary bytes (complete or one byte short) into a fresh or reset column} every emitted value (bytes, error class, row count, decoded rows) is asserted equal by the solver; divergences are replayed in both native builds.",
    ref="DESIGN.md §4 C15",
    note="bounds: rows<=2 (quick)/3; all element values and input bytes symbolic (so 8/16-bit element types are covered exhaustively per row); amd64 little-endian layout for the unsafe build; bswap.swap64 asm modelled natively in both programs"),
+ "C06": dict(
+   level="model_checking",
+   text="Every byte of the input is a symbolic variable: DecodeState+DecodeColumn of each column type and composition (rows 0..2), every message decoder with a symbolic revision, and whole blocks through Results.Auto and a typed target are executed on L arbitrary bytes. Implicit assertions on every path: no Go panic, no loop beyond the unwind bound, no allocation request that can exceed the by-design ceiling (100M rows x 512 B); explicit: on success Rows()==rows and every Row(i) is called. No mutation list is involved - all count/length/offset/key/meta values within L bytes are covered.",
+   ref="DESIGN.md §4 C06",
+   note="bounds: L = 6..36 input bytes depending on the target (see evidence), counts that become shapes enumerated up to 6/12 values per site (larger counts are out-of-bound paths, counted); allocation ceiling 51.2e9 bytes; two known findings (unchecked string length allocation in ColStr.DecodeColumn and Reader.StrRaw) are reported as KNOWN-FINDING; native replays run under ulimit -v 16 GiB"),
 }
 
 NA = {
